@@ -731,6 +731,40 @@ def run(tier: str) -> int:
                                       {"source": src, "declared": sorted(declared), "undeclared_name": cand, "verdict": verdict,
                                        "is_builtin": hasattr(builtins, cand)})
                     break
+    # ---- through the sweep factory: the declared names of *every* expression of a node are the sweep variables, nothing else ------
+    try:
+        from props import pipegen
+        pipegen.setup()
+        from semantiva.pipeline.node_preprocess import preprocess_node_config
+        stats["factory_expression_sets"] = 0
+        for params, variables, bad in (
+                ({"a": "(t,)", "b": "(a, t)"}, {"t": [1, 2]}, "a"),                 # a later expression names an earlier *target parameter*
+                ({"b": "(t,)", "a": "(b, t)"}, {"t": [1, 2]}, "b"),
+                ({"a": "(t, b)", "b": "(t,)"}, {"t": [1, 2]}, "b"),                 # ... or a later one
+                ({"a": "(t,)", "b": "(format, t)"}, {"t": [1]}, "format"),          # a builtin's name
+                ({"a": "(u,)", "b": "(t,)"}, {"t": [1]}, "u"),                      # a plain undeclared name
+                ({"a": "(a,)", "b": "(t,)"}, {"t": [1]}, "a"),                      # the expression's own target
+        ):
+            stats["factory_expression_sets"] += 1
+            spec = {"processor": "TOp2", "derive": {"parameter_sweep": {"parameters": dict(params), "variables": dict(variables), "collection": "TColl"}}}
+            try:
+                preprocess_node_config(spec)
+                verdict = "accepted"
+            except Exception as exc:  # noqa: BLE001
+                verdict = "rejected"
+            if verdict != "rejected":
+                rep.add_violation("undeclared-name-accepted:sweep-factory",
+                                  f"a sweep node whose expressions {params} use {bad!r}, which is not one of its variables {sorted(variables)}, is accepted",
+                                  {"node": spec, "undeclared_name": bad})
+        for params, variables in (({"a": "(t,)", "b": "(t, s)"}, {"t": [1, 2], "s": [3]}), ({"a": "(a, b)", "b": "(b,)"}, {"a": [1], "b": [2]})):
+            stats["factory_expression_sets"] += 1
+            spec = {"processor": "TOp2", "derive": {"parameter_sweep": {"parameters": dict(params), "variables": dict(variables), "collection": "TColl"}}}
+            try:
+                preprocess_node_config(spec)
+            except Exception as exc:  # noqa: BLE001
+                rep.add_violation("rejects-documented-grammar:sweep-factory", f"a sweep node over declared variables only is rejected: {exc!r}", {"node": spec})
+    except ImportError as exc:
+        rep.notes.append(f"sweep-factory oracle skipped: {exc!r}")
     # rejected expression whose first operand would have an observable effect if evaluated early
     for src in ["abs(1) + zz_undeclared", "max(abs(1), (lambda: 0)())", "abs(1).real"]:
         acc2, err2, fn, ncalls = compile_real(se, src)
